@@ -274,6 +274,35 @@ def deep_tree(s, rng):
             break
 
 
+def many_ids(s, rng):
+    """webentity ids around the byte boundaries of the header field (255, 256, 257, 511, 512), then a restart"""
+    if rng.random() > 0.07 or s.impl.backend != "f":
+        return
+    target = rng.choice([255, 256, 256, 257, 511, 512, 512, 513])
+    while s.tr.last >= target:
+        target += 256
+    k = 0
+    while s.tr.last < target and k < 700:
+        k += 1
+        n = min(8, target - s.tr.last)
+        before = s.tr.last
+        if n > 1:
+            s.do(3, [[b"s:http|h:com|h:id%d|p:x|" % (1000 * k + j) for j in range(n)], 0])
+        else:
+            s.do(6, [[b"s:http|h:org|h:one%d|" % k]])
+        if s.tr.last == before:
+            return                       # nothing is created any more: give up quietly (the usual checks still apply)
+    s.do(13, [s.tr.dflt, [[p, kd] for p, kd in s.tr.rules]])
+    s.do(6, [[b"s:http|h:org|h:after%d|" % target]])
+    s.do(2, [b"s:http|h:org|h:afterpage%d|p:a|" % target, 1])
+    s.do(13, [s.tr.dflt, [[p, kd] for p, kd in s.tr.rules]])
+    s.do(6, [[b"s:http|h:org|h:again%d|" % target]])
+
+
+# long sibling stems that agree on their whole first block (74 bytes) or on two blocks: which one is smaller is decided in a tail
+SIB_LONG = [b"p:" + b"x" * 80 + b"|", b"p:" + b"x" * 80 + b"a|", b"p:" + b"x" * 80 + b"b|", b"p:" + b"x" * 72 + b"mm|",
+            b"p:" + b"x" * 72 + b"zz|", b"p:" + b"x" * 72 + b"bb|", b"p:" + b"x" * 150 + b"|", b"p:" + b"x" * 150 + b"a|",
+            b"p:" + b"x" * 71 + b"|", b"p:" + b"x" * 72 + b"|", b"p:" + b"x" * 146 + b"|"]
 SIB_STEMS = [b"p:a|", b"p:ab|", b"p:a~|", b"p:b|", b"p:a\xc3\xa9|", b"p:" + b"x" * 80 + b"|", b"p:" + b"x" * 80 + b"a|", b"p:aa|"]
 
 
@@ -291,6 +320,11 @@ def _perm_worker(job):
             s.do(2, [base + st, rng.randint(0, 1)])
             if rng.random() < 0.3:
                 s.do(2, [base + st + b"p:k|", 0])
+        if cfg.get("readd"):
+            # submitting everything again must find every stem where it was put
+            for st in cfg["order"]:
+                s.do(2, [base + st, 0])
+            s.do(3, [[base + st for st in reversed(cfg["order"])], 0])
         focus = cfg["focus"]
         if 26 in focus:
             wes = s.webentities()
@@ -318,21 +352,24 @@ def _perm_worker(job):
         s.close()
 
 
-def perm_sweep(nstems):
+def perm_sweep(nstems, family=None, readd=False, tag="sibling_permutations"):
     """all insertion orders of a small family of sibling stems (exhaustive in the thorough tier)"""
     def run(prop, tier, seed):
         import itertools
         rng = random.Random(seed + 3)
-        stems = rng.sample(SIB_STEMS, nstems)
+        stems = rng.sample(family or SIB_STEMS, nstems)
         perms = list(itertools.permutations(stems))
         if tier != "thorough":
             rng.shuffle(perms)
             perms = perms[:40]
-        jobs = [(seed + i, {"order": list(pm), "focus": K.FACET_OPS[prop]}) for i, pm in enumerate(perms)]
+        jobs = [(seed + i, {"order": list(pm), "focus": K.FACET_OPS[prop], "readd": readd}) for i, pm in enumerate(perms)]
         results = pool_map(_perm_worker, jobs)
         v, k = classify(prop, results, seed)
-        return v, {"sibling_permutations": len(perms), "sibling_permutations_exhaustive": tier == "thorough"}
+        return v, {tag: len(perms), tag + "_exhaustive": tier == "thorough"}
     return run
+
+
+long_sweep = perm_sweep(5, family=SIB_LONG, readd=True, tag="long_sibling_permutations")
 
 
 def both_sweeps(*fs):
@@ -358,8 +395,8 @@ def reg(pid, theorems, focus, nq=480, nt=30000, nw=25, depth=1, mixkw=None, extr
     PROPS[pid] = dict({"theorems": theorems, "runner": hist_runner(cfgq, cfgt, nq, nt, RULE % nw, sweep)}, **more)
 
 
-reg("C01", ["C01_pages_perm", "C01_count_pages", "C01_reports"], K.FACET_OPS["C01"], weird=0.3)
-reg("C02", ["C02_find_known", "C02_windup", "C02_stem_roundtrip"], K.FACET_OPS["C02"], sweep=both_sweeps(helper_sweep(["chunks", "lru"]), perm_sweep(5)), weird=0.45)
+reg("C01", ["C01_pages_perm", "C01_count_pages", "C01_reports"], K.FACET_OPS["C01"], weird=0.3, sweep=long_sweep)
+reg("C02", ["C02_find_known", "C02_windup", "C02_stem_roundtrip"], K.FACET_OPS["C02"], sweep=both_sweeps(helper_sweep(["chunks", "lru"]), perm_sweep(5), long_sweep), weird=0.45)
 reg("C03", ["C03_out", "C03_in", "C03_count"], K.FACET_OPS["C03"], mixkw={"add_links": 30, "batch": 20})
 reg("C04", ["C04_resolve", "C04_prefmap"], K.FACET_OPS["C04"],
     mixkw={"create_we": 16, "delete_we": 10, "add_prefix": 12, "remove_prefix": 10, "move_prefix": 8})
@@ -374,9 +411,9 @@ reg("C09", ["C09_token_roundtrip", "C09_sorted_pages", "C09_chunks", "C09_stable
     extra=[deep_tree])
 reg("C10", ["C10_chunks", "C10_same_links"], K.FACET_OPS["C10"], mixkw={"add_links": 35, "batch": 20, "create_we": 14},
     extra=[deep_tree])
-reg("C12", ["C12_fresh"], set(), mixkw={"create_we": 16, "delete_we": 10, "add_rule": 10, "reopen": 10})
+reg("C12", ["C12_fresh"], set(), mixkw={"create_we": 16, "delete_we": 10, "add_rule": 10, "reopen": 10}, extra=[many_ids])
 reg("C13", ["C13_parents", "C13_children"], K.FACET_OPS["C13"], mixkw={"create_we": 18, "add_prefix": 12, "move_prefix": 8, "add_rule": 10})
-reg("C19", ["C19_trie_blocks", "C19_count_links", "C19_readd_no_growth"], K.FACET_OPS["C19"], sweep=helper_sweep(["chunks"]), weird=0.45,
+reg("C19", ["C19_trie_blocks", "C19_count_links", "C19_readd_no_growth"], K.FACET_OPS["C19"], sweep=both_sweeps(helper_sweep(["chunks"]), long_sweep), weird=0.45,
     mixkw={"add_page": 45, "add_pages": 16})
 reg("C20", ["C20_topk"], K.FACET_OPS["C20"], mixkw={"add_links": 35, "batch": 20, "create_we": 14})
 
